@@ -6,10 +6,12 @@ import (
 	"context"
 	"fmt"
 	"runtime"
+	"runtime/debug"
 	"sort"
 	"strings"
 	"sync"
 	"testing"
+	"time"
 
 	"github.com/couchbase/sync_gateway/base"
 	"verif/vlib"
@@ -236,6 +238,14 @@ type c17Worker struct {
 	emitted []c17Task
 	sigSeen map[string]bool
 
+	// state-graph mode: every reachable (checkpointer lists, model) state is expanded once; memo holds the
+	// number of complete interleavings from that state to the end
+	graph                                                    bool
+	memo                                                     map[uint64]uint64
+	keybuf                                                   []byte
+	gStates, gTransitions, gHits, gTickTransitions, gLeaves int64
+	gPaths                                                   uint64
+
 	leaves, ticks, nonnil, compactions, compactedEntries, nodes, oooLeaves, finalChecks int64
 	classes                                                                            []string
 }
@@ -387,7 +397,7 @@ func (w *c17Worker) leaf(d int, nd c17Node) {
 	if nd.ooo {
 		w.oooLeaves++
 	}
-	if nd.nTicks == 1 && nd.ooo { // one leaf per order of notifications: the class key
+	if !w.graph && nd.nTicks == 1 && nd.ooo { // one leaf per order of notifications: the class key
 		var sb strings.Builder
 		sb.WriteString(w.cfg.uni.Name)
 		sb.WriteByte('|')
@@ -487,6 +497,127 @@ func (w *c17Worker) dfs(d int, nd c17Node) {
 	w.leaf(d, nd)
 }
 
+// stateKey encodes everything the future behaviour and the oracles depend on: the checkpointer's two lists
+// (expectedSeqs in its current order, processedSeqs) and the model (announced prefix, reported set, last chosen
+// value, whether the previous step was a tick, whether a compaction happened: the latter only labels signatures).
+func (w *c17Worker) stateKey(d int, nd c17Node) uint64 {
+	c := w.frames[d]
+	b := w.keybuf[:0]
+	tokIdx := func(s SequenceID) byte {
+		for i, t := range w.toks {
+			if t == s {
+				return byte(i)
+			}
+		}
+		return 0xfe
+	}
+	var pm uint16
+	other := 0
+	for k := range c.processedSeqs {
+		if i := tokIdx(k); i != 0xfe {
+			pm |= 1 << i
+		} else {
+			other++
+		}
+	}
+	fl := byte(0)
+	if nd.lastTick {
+		fl |= 1
+	}
+	if nd.compacted {
+		fl |= 2
+	}
+	lastI := byte(0xff)
+	if nd.hasLast {
+		lastI = tokIdx(nd.last)
+	}
+	b = append(b, byte(nd.ann), byte(nd.done), byte(nd.done>>8), lastI, fl, byte(pm), byte(pm>>8), byte(other), byte(len(c.expectedSeqs)))
+	fits := other == 0 && len(c.expectedSeqs) <= 8 && nd.done < 256 && pm < 256 && (lastI < 8 || lastI == 0xff)
+	for _, e := range c.expectedSeqs {
+		i := tokIdx(e)
+		if i >= 8 {
+			fits = false
+		}
+		b = append(b, i)
+	}
+	w.keybuf = b
+	if fits { // exact packing into 55 bits (bit 63 clear): ann 4 | done 8 | last 4 | flags 2 | processed 8 | len 4 | 8 x 3
+		k := uint64(nd.ann)<<51 | uint64(nd.done)<<43 | uint64(lastI&0xf)<<39 | uint64(fl)<<37 | uint64(pm)<<29 | uint64(len(c.expectedSeqs))<<25
+		for j, e := range b[9:] {
+			k |= uint64(e) << (3 * j)
+		}
+		return k
+	}
+	// states outside the packing (only reachable when the code under test misbehaves): hashed, bit 63 set
+	return vlib.HashStr(string(b)) | 1<<63
+}
+
+// gdfs is dfs over distinct states: same moves, same oracles on every executed transition, each state expanded
+// once. Returns the number of complete interleavings (orders of notifications x tick placements) from this state.
+func (w *c17Worker) gdfs(d int, nd c17Node) uint64 {
+	key := w.stateKey(d, nd)
+	if v, ok := w.memo[key]; ok {
+		w.gHits++
+		return v
+	}
+	w.gStates++
+	n := w.cfg.n
+	var paths uint64
+	moved := false
+	if nd.ann < n {
+		moved = true
+		i := nd.ann
+		ch := w.child(d)
+		nn := nd
+		nn.ann++
+		nn.lastTick = false
+		if w.cfg.known&(1<<i) != 0 {
+			ch.AddAlreadyKnownSeq(w.toks[i])
+			nn.done |= 1 << i
+		} else {
+			ch.AddExpectedSeqs(w.toks[i])
+		}
+		w.ops[d] = c17OpAnn | uint8(i)
+		w.gTransitions++
+		paths += w.gdfs(d+1, nn)
+	}
+	for i := 0; i < n; i++ {
+		if w.cfg.known&(1<<i) != 0 || nd.done&(1<<i) != 0 {
+			continue
+		}
+		if i >= nd.ann && !w.cfg.early {
+			continue
+		}
+		moved = true
+		ch := w.child(d)
+		ch.AddProcessedSeq(w.toks[i])
+		nn := nd
+		nn.done |= 1 << i
+		nn.lastTick = false
+		w.ops[d] = c17OpProc | uint8(i)
+		w.gTransitions++
+		paths += w.gdfs(d+1, nn)
+	}
+	switch {
+	case moved && !nd.lastTick:
+		nn := nd
+		w.doTick(d, &nn)
+		w.gTransitions++
+		paths += w.gdfs(d+1, nn)
+	case !moved && !nd.lastTick:
+		nn := nd
+		w.doTick(d, &nn)
+		w.gTransitions++
+		w.leaf(d+1, nn)
+		paths = 1
+	case !moved:
+		w.leaf(d, nd)
+		paths = 1
+	}
+	w.memo[key] = paths
+	return paths
+}
+
 // replay rebuilds frame len(prefix) from the root (no oracles: they ran when the prefix was enumerated).
 func (w *c17Worker) replay(prefix []uint8) {
 	w.reset(w.cfg.thr)
@@ -511,6 +642,20 @@ func (w *c17Worker) replay(prefix []uint8) {
 
 func (w *c17Worker) flush() {
 	r := w.run
+	if w.graph {
+		r.Evals(int(w.gTransitions))
+		r.Count("graph_states", int(w.gStates))
+		r.Count("graph_transitions_executed", int(w.gTransitions))
+		r.Count("graph_memo_hits", int(w.gHits))
+		r.Count("graph_ticks_checked", int(w.ticks))
+		r.Count("graph_ticks_choosing_a_checkpoint", int(w.nonnil))
+		r.Count("graph_compactions", int(w.compactions))
+		r.Count("graph_final_checks", int(w.finalChecks))
+		r.Count("graph_interleavings_covered_millions", int(w.gPaths/1000000))
+		w.gStates, w.gTransitions, w.gHits, w.gPaths = 0, 0, 0, w.gPaths%1000000
+		w.leaves, w.oooLeaves, w.ticks, w.nonnil, w.compactions, w.compactedEntries, w.finalChecks, w.nodes = 0, 0, 0, 0, 0, 0, 0, 0
+		return
+	}
 	r.Evals(int(w.leaves))
 	r.Count("interleavings", int(w.leaves))
 	r.Count("interleavings_with_out_of_order_completion", int(w.oooLeaves))
@@ -532,42 +677,42 @@ func TestVerif_C17_Exhaustive(t *testing.T) {
 	defer run.Finish()
 	ctx := base.TestCtx(t)
 	unis := c17Universes(t, run)
+	thresholds := []int{0, 1, 2, defaultExpectedSeqCompactionThreshold}
+	// the code under test allocates a little per call (log arguments, sort.Slice); the live heap is small, so the
+	// default GC pacing would collect continuously
+	defer debug.SetGCPercent(debug.SetGCPercent(4000))
+	defer debug.SetMemoryLimit(debug.SetMemoryLimit(1 << 30)) // the package's test main fails above 2 GB in use
+	workers := runtime.GOMAXPROCS(0)
 
-	maxN := run.N(6, 8)
+	// ---- (1) every interleaving executed one by one (no sharing of states), sized to the tier's budget
+	maxN := run.N(7, 8)
 	var cfgs []c17Cfg
 	add := func(u *c17Universe, n, thr int, early bool, maxTicks int) {
 		for known := 0; known < 1<<n; known++ {
 			cfgs = append(cfgs, c17Cfg{uni: u, n: n, known: uint16(known), thr: thr, early: early, maxTicks: maxTicks})
 		}
 	}
-	thresholds := []int{0, 1, 2, defaultExpectedSeqCompactionThreshold}
 	for _, u := range unis {
 		for _, thr := range thresholds {
-			for n := 1; n <= maxN; n++ {
+			small := u.Name == "plain" && (thr == 0 || thr == 2)
+			for n := 1; n <= 5; n++ {
 				switch {
-				case n <= 6:
-					// every tick placement; completions after their announcement
-					add(u, n, thr, false, -1)
-				case n == 7:
-					if u.Name == "plain" || thr == 0 || thr == 2 {
-						add(u, n, thr, false, -1)
-					} else {
-						add(u, n, thr, false, 3)
+				case n <= 4:
+					add(u, n, thr, false, -1) // every tick placement
+					if n <= 3 || small || run.Thorough() {
+						add(u, n, thr, true, -1) // ... also with completions overtaking their own announcement
 					}
-				default:
-					add(u, n, thr, false, 3) // 8 tokens: at most 3 optional ticks + the final one
-				}
-				// completions may also overtake their own announcement
-				if n <= run.N(4, 5) {
-					add(u, n, thr, true, -1)
-				} else if n <= run.N(5, 6) && (thr == 0 || thr == defaultExpectedSeqCompactionThreshold) && (u.Name == "plain" || u.Name == "lowback") {
-					add(u, n, thr, true, run.N(3, -1))
+				case n == 5:
+					if small || run.Thorough() {
+						add(u, n, thr, false, -1)
+					}
+					if run.Thorough() && u.Name == "plain" && thr == 0 {
+						add(u, n, thr, true, -1)
+					}
 				}
 			}
 		}
 	}
-
-	// enumerate the first levels here, hand the subtrees to the workers
 	var tasks []c17Task
 	{
 		w := c17NewWorker(run, ctx)
@@ -575,10 +720,7 @@ func TestVerif_C17_Exhaustive(t *testing.T) {
 			w.setCfg(cfg)
 			w.split = 0
 			if cfg.n >= 5 {
-				w.split = 5
-			}
-			if cfg.n >= 7 {
-				w.split = 7
+				w.split = 6
 			}
 			w.reset(cfg.thr)
 			if w.split == 0 {
@@ -586,42 +728,114 @@ func TestVerif_C17_Exhaustive(t *testing.T) {
 			} else {
 				w.dfs(0, c17Node{})
 			}
-			run.Distinct("configs", fmt.Sprintf("%s|%d|%s|%d|%v|%d", cfg.uni.Name, cfg.n, cfg.kindsString(), cfg.thr, cfg.early, cfg.maxTicks))
 		}
 		w.flush()
 		tasks = w.emitted
 	}
-	run.Count("configs", len(cfgs))
-	run.Count("subtree_tasks", len(tasks))
-	// biggest first is not known; shuffle deterministically so that big subtrees are spread
+	run.Count("bruteforce_configs", len(cfgs))
 	sort.SliceStable(tasks, func(i, j int) bool { return tasks[i].cfg.n > tasks[j].cfg.n })
+	t0 := time.Now()
+	{
+		var wg sync.WaitGroup
+		ch := make(chan c17Task, 256)
+		for k := 0; k < workers; k++ {
+			wg.Add(1)
+			go func() {
+				defer wg.Done()
+				w := c17NewWorker(run, ctx)
+				cnt := 0
+				for task := range ch {
+					w.setCfg(task.cfg)
+					w.replay(task.prefix)
+					w.dfs(len(task.prefix), task.node)
+					if cnt++; cnt%64 == 0 {
+						w.flush()
+					}
+				}
+				w.flush()
+			}()
+		}
+		for _, task := range tasks {
+			ch <- task
+		}
+		close(ch)
+		wg.Wait()
+	}
+	run.Note("one-by-one enumeration wall time %.1fs on %d workers (diagnostic only)", time.Since(t0).Seconds(), workers)
 
-	workers := runtime.GOMAXPROCS(0)
-	var wg sync.WaitGroup
-	ch := make(chan c17Task, 256)
-	for k := 0; k < workers; k++ {
-		wg.Add(1)
-		go func() {
-			defer wg.Done()
-			w := c17NewWorker(run, ctx)
-			cnt := 0
-			for task := range ch {
-				w.setCfg(task.cfg)
-				w.replay(task.prefix)
-				w.dfs(len(task.prefix), task.node)
-				cnt++
-				if cnt%64 == 0 {
-					w.flush()
+	// ---- (2) all interleavings up to maxN tokens, every tick placement, completions before or after their
+	// announcement, by expanding every reachable (checkpointer lists, model) state exactly once
+	var gcfgs []c17Cfg
+	for _, u := range unis {
+		for _, thr := range thresholds {
+			for n := 1; n <= maxN; n++ {
+				for known := 0; known < 1<<n; known++ {
+					for _, early := range []bool{false, true} {
+						gcfgs = append(gcfgs, c17Cfg{uni: u, n: n, known: uint16(known), thr: thr, early: early, maxTicks: -1})
+					}
 				}
 			}
-			w.flush()
-		}()
+		}
 	}
-	for _, task := range tasks {
-		ch <- task
+	sort.SliceStable(gcfgs, func(i, j int) bool { return gcfgs[i].n > gcfgs[j].n })
+	run.Count("graph_configs", len(gcfgs))
+	t0 = time.Now()
+	{
+		var wg sync.WaitGroup
+		ch := make(chan c17Cfg, 256)
+		var mu sync.Mutex
+		crossOK, crossBad := 0, 0
+		for k := 0; k < workers; k++ {
+			wg.Add(1)
+			go func() {
+				defer wg.Done()
+				w := c17NewWorker(run, ctx)
+				w.graph = true
+				w.memo = map[uint64]uint64{}
+				w.keybuf = make([]byte, 0, 64)
+				bw := c17NewWorker(run, ctx) // for the cross-check below; its counters are discarded
+				cnt := 0
+				for cfg := range ch {
+					w.setCfg(cfg)
+					w.reset(cfg.thr)
+					clear(w.memo)
+					paths := w.gdfs(0, c17Node{})
+					w.gPaths += paths
+					// self-check of the sharing: for small cases the number of interleavings derived from the state
+					// graph must equal the number found by executing them one by one
+					if cfg.n <= 3 {
+						bw.setCfg(cfg)
+						bw.reset(cfg.thr)
+						bw.leaves = 0
+						bw.dfs(0, c17Node{})
+						mu.Lock()
+						if uint64(bw.leaves) == paths {
+							crossOK++
+						} else {
+							crossBad++
+							run.Note("state-graph path count %d differs from one-by-one count %d for %s n=%d answers=%s thr=%d early=%v", paths, bw.leaves, cfg.uni.Name, cfg.n, cfg.kindsString(), cfg.thr, cfg.early)
+						}
+						mu.Unlock()
+						bw.classes = bw.classes[:0]
+					}
+					if cnt++; cnt%32 == 0 {
+						w.flush()
+					}
+				}
+				w.flush()
+			}()
+		}
+		for _, cfg := range gcfgs {
+			ch <- cfg
+		}
+		close(ch)
+		wg.Wait()
+		run.Count("graph_pathcount_crosschecks_ok", crossOK)
+		if crossBad > 0 {
+			run.Inconclusive("state-graph path count disagrees with one-by-one enumeration (harness self-check)")
+		}
 	}
-	close(ch)
-	wg.Wait()
+	run.Note("state-graph exploration wall time %.1fs on %d workers (diagnostic only)", time.Since(t0).Seconds(), workers)
 	run.Sample(map[string]any{"universes": func() map[string][]string {
 		m := map[string][]string{}
 		for _, u := range unis {
@@ -738,6 +952,7 @@ func c17GenTranscript(r *vlib.Rand, n int) []SequenceID {
 		case r.Chance(1, 12): // a slow sequence: following ones carry it as low sequence
 			seq++
 			low := seq // last contiguous
+			out = append(out, SequenceID{Seq: low})
 			var late []uint64
 			k := r.Range(1, 3)
 			for i := 0; i < k; i++ {
